@@ -720,3 +720,53 @@ def dead_arm_names(ast):
                     elif x[0] == 'alias':
                         out.add(x[1].lower() + ('_new' if x[2] else ''))
     return out
+
+
+def attributes_of(text, noped=False):
+    """C13 oracle: attribute set implied by the part's own text (independent parser)."""
+    if noped:
+        return ["HEX_IL_INSN_ATTR_NONE"]
+    ast = parse(text)
+    cond = new = rd = wr = br = wpred = False
+    preds = []
+    for n in subterms(ast):
+        if not isinstance(n, tuple) or not n:
+            continue
+        k = n[0]
+        if k == 'if' or k == 'switch':
+            cond = True
+        elif k == 'reg' and n[3]:
+            new = True
+        elif k in ('xreg', 'alias') and n[2]:
+            new = True
+        elif k == 'load':
+            rd = True
+        elif k == 'store':
+            wr = True
+        elif k == 'jump':
+            br = True
+        elif k == 'assign':
+            l = n[2]
+            if isinstance(l, tuple) and l and l[0] == 'reg' and l[1] == 'P':
+                wpred = True
+            elif isinstance(l, tuple) and l and l[0] == 'xreg' and l[1][0] == 'P':
+                wpred = True
+                m = re.match(r'P([0-3])$', l[1])
+                if m and int(m.group(1)) not in preds:
+                    preds.append(int(m.group(1)))
+    flags = []
+    if cond:
+        flags.append("HEX_IL_INSN_ATTR_COND")
+    if new:
+        flags.append("HEX_IL_INSN_ATTR_NEW")
+    if wr:
+        flags.append("HEX_IL_INSN_ATTR_MEM_WRITE")
+    if rd:
+        flags.append("HEX_IL_INSN_ATTR_MEM_READ")
+    if br:
+        flags.append("HEX_IL_INSN_ATTR_BRANCH")
+    if wpred:
+        flags.append("HEX_IL_INSN_ATTR_WPRED")
+        for p in preds:
+            flags.append(f"HEX_IL_INSN_ATTR_WRITE_P{p}")
+    return flags or ["HEX_IL_INSN_ATTR_NONE"]
